@@ -282,6 +282,20 @@ func flightChanges() []flightChange {
 			out[o.Off+6+r.Choice("opt.ts.byte", 6)] ^= byte(1 + r.Choice("opt.ts.val", 255))
 			return out
 		}},
+		{"option-reserved-byte", false, func(r *core.Run, raw []byte) []byte {
+			// "RSV: MUST be set to zero by the sender and SHOULD be ignored by the recipient"
+			p := parse(raw)
+			if p == nil {
+				return nil
+			}
+			o := findSPAO(p)
+			if o == nil {
+				return nil
+			}
+			out := cp(raw)
+			out[o.Off+5] ^= byte(1 + r.Choice("opt.rsv.val", 255))
+			return out
+		}},
 		{"option-algorithm", true, func(r *core.Run, raw []byte) []byte {
 			p := parse(raw)
 			if p == nil {
@@ -375,7 +389,8 @@ func spaoCampaign(r *core.Run) {
 		ch := changes[r.Choice("change", len(changes))]
 		at := r.Choice("change.at", 4) // how many routers the packet passes before the change
 
-		if r.Chance("traceroute", 1, 3) {
+		if r.Chance("traceroute", 1, 2) {
+			at = 1 + at%3 // the request has to pass at least one router before something happens to it
 			// ---- authenticated traceroute request: the router is the verifier ----
 			hop := r.Choice("alert.hop", base.NumHops)
 			ingFlag := r.Chance("alert.ingressflag", 1, 2)
